@@ -77,7 +77,7 @@ fn generate_event_enum(machine: &StateMachine) -> Result<TokenStream2> {
         impl #event_name {
             /// Get the name of this event as a static string.
             pub fn name(&self) -> &'static str {
-                match self {
+                match *self {
                     #(#match_arms,)*
                 }
             }
